@@ -173,19 +173,38 @@ Shifter(g, sh, la, pos, made) ==
                  ELSE [g1 EXCEPT !.edges[e0].poss = Append(@, term)]
        IN Shifter(g2, rest, la, pos, made1)
 
-\* One frontier with lookahead la (0 = STOP).  G = [g, base, acc, pos, abort, hang]:
-\* base = set of node ids created by the last shifter (the frontier base).
-Frontier(T, G, la) ==
-  LET live == {n \in G.base : la \in TExpected(T, G.g.nodes[n].st)}     \* create_frontier / find_lookaheads
-      sub0 == [q \in TStates(T) |-> IF \E n \in live : G.g.nodes[n].st = q
-                                     THEN CHOOSE n \in live : G.g.nodes[n].st = q ELSE 0]
-      X0 == [g |-> [G.g EXCEPT !.sub = sub0], red |-> <<>>, sh |-> <<>>, acc |-> G.acc, abort |-> FALSE, hang |-> FALSE]
+\* One sub-frontier: the heads `live` of the frontier base all see lookahead la.
+\* Returns X = [g, red, sh, acc, abort, hang] after initial_process_frontier + reducer.
+SubFrontier(T, g, acc, live, la, pos) ==
+  LET sub0 == [q \in TStates(T) |-> IF \E n \in live : g.nodes[n].st = q
+                                     THEN CHOOSE n \in live : g.nodes[n].st = q ELSE 0]
+      X0 == [g |-> [g EXCEPT !.sub = sub0], red |-> <<>>, sh |-> <<>>, acc |-> acc, abort |-> FALSE, hang |-> FALSE]
       X1 == InitialProcess(T, X0, la)
-      X2 == Reducer(T, X1, la, G.pos, 400)
+  IN Reducer(T, X1, la, pos, 400)
+
+\* One frontier with lookahead la (0 = STOP; -1 = text no terminal matches).
+\* G = [g, base, acc, pos, abort, hang]: base = set of node ids created by the last
+\* shifter (the frontier base).
+\* find_lookaheads with partial parse: a head whose state does not expect la but expects
+\* STOP gets the synthetic STOP token.  The frontier is keyed by (position, token kind)
+\* and STOP is the smallest kind, so the STOP sub-frontier is reduced first; it can only
+\* accept (nothing is shifted on STOP); the heads it creates are not visible to the
+\* sub-frontier of la.
+FrontierP(T, G, la, partial) ==
+  LET stopHeads == IF partial /\ la # T.stop
+                   THEN {n \in G.base : la \notin TExpected(T, G.g.nodes[n].st)
+                                          /\ T.stop \in TExpected(T, G.g.nodes[n].st)}
+                   ELSE {}
+      XS == IF stopHeads = {} THEN [g |-> G.g, acc |-> G.acc, abort |-> FALSE, hang |-> FALSE]
+            ELSE SubFrontier(T, G.g, G.acc, stopHeads, T.stop, G.pos)
+      live == {n \in G.base : la \in TExpected(T, G.g.nodes[n].st)}     \* create_frontier / find_lookaheads
+      X2 == SubFrontier(T, XS.g, XS.acc, live, la, G.pos)
       S  == Shifter(X2.g, X2.sh, la, G.pos, [q \in TStates(T) |-> 0])
       newBase == {S.made[q] : q \in {x \in TStates(T) : S.made[x] # 0}}
-  IN [g |-> S.g, base |-> newBase, acc |-> X2.acc, pos |-> G.pos + 1, abort |-> X2.abort, hang |-> X2.hang,
+  IN [g |-> S.g, base |-> newBase, acc |-> X2.acc, pos |-> G.pos + 1,
+      abort |-> X2.abort \/ XS.abort, hang |-> X2.hang \/ XS.hang,
       lastBase |-> IF newBase = {} THEN G.base ELSE G.lastBase]
+Frontier(T, G, la) == FrontierP(T, G, la, FALSE)
 
 InitG(T) == [g |-> EmptyGSS(T), base |-> {1}, acc |-> <<>>, pos |-> 0, abort |-> FALSE, hang |-> FALSE, lastBase |-> {}]
 
@@ -230,11 +249,14 @@ TreesEdge(g, e) == UNION {TreesPoss(g, g.edges[e].poss[i]) : i \in 1 .. Len(g.ed
 ForestTrees(G) ==
   UNION {UNION {TreesEdge(G.g, e) : e \in Range(BackEdges(G.g, G.acc[i]))} : i \in 1 .. Len(G.acc)}
 
-\* run on a whole token string (no STOP inside w), for binding to recorded executions
-RECURSIVE RunTokens(_, _, _, _)
-RunTokens(T, G, w, i) ==
+\* run on a whole token string (no STOP inside w; -1 = a place where no terminal matches),
+\* for binding to recorded executions
+RECURSIVE RunTokensP(_, _, _, _, _)
+RunTokensP(T, G, w, i, partial) ==
   IF G.base = {} \/ G.abort \/ G.hang THEN G
-  ELSE IF i > Len(w) THEN Frontier(T, G, T.stop)
-  ELSE RunTokens(T, Frontier(T, G, w[i]), w, i + 1)
-Run(T, w) == RunTokens(T, InitG(T), w, 1)
+  ELSE IF i > Len(w) THEN FrontierP(T, G, T.stop, partial)
+  ELSE RunTokensP(T, FrontierP(T, G, w[i], partial), w, i + 1, partial)
+RunP(T, w, partial) == RunTokensP(T, InitG(T), w, 1, partial)
+RunTokens(T, G, w, i) == RunTokensP(T, G, w, i, FALSE)
+Run(T, w) == RunP(T, w, FALSE)
 =============================================================================
